@@ -9,7 +9,11 @@ int main(void) {
     int argc = 0;
     for (char* t = strtok(line, " \t\r\n"); t && argc < 64; t = strtok(NULL, " \t\r\n")) w[argc++] = t;
     if (argc == 0) { printf("bad-op\n"); continue; }
-    if (gen_op(argc, w)) continue;
+    /* the streaming decoder, encoders, UTF-8 counter and arithmetic helpers must not allocate: any request is fatal here */
+    h_alloc_forbid(1);
+    int handled = gen_op(argc, w);
+    h_alloc_forbid(0);
+    if (handled) continue;
     if (tree_op(argc, w)) continue;
     printf("bad-op\n");
   }
